@@ -69,9 +69,16 @@ class Inode:
 
 
 class ModelFS:
-    def __init__(self, n0, o0, w0, crash_at, lost, new_ver=1, vers=(0, 0, 0), trace=None):
+    def __init__(self, n0, o0, w0, crash_at, lost, new_ver=1, vers=(0, 0, 0), trace=None, other=None, primary=NAME):
         # a path maps to an Inode; "absent" is an Inode with n == -1 that no handle can hold
-        self.files = {NAME: Inode(n0, vers[0]), OLD: Inode(o0, vers[1]), NEW: Inode(w0, vers[2])}
+        self.primary = primary
+        self.files = {primary: Inode(n0, vers[0]), primary + '.old': Inode(o0, vers[1]),
+                      primary + '.new': Inode(w0, vers[2])}
+        # other=(e0, eo0, ew0): any further base name b that the code under test touches gets its own
+        # family b / b.old / b.new with that pre-state (caller-level runs: per-epoch checkpoint names);
+        # other=None (save_parameters-level runs): a path outside name/.old/.new is a ModelGap
+        self.other = other
+        self.families = {primary: (n0, o0, w0)}  # base name -> pre-state lengths
         self.crash_at = crash_at
         self.lost = lost
         self.new_ver = new_ver
@@ -102,7 +109,15 @@ class ModelFS:
         if not isinstance(path, str):
             path = _real_os.fspath(path)
         if path not in self.files:
-            self._gap(f'path outside the modelled directory: {path!r}')
+            if self.other is None:
+                self._gap(f'path outside the modelled directory: {path!r}')
+            base = path[:-4] if path.endswith(('.old', '.new')) else path
+            if base in self.families or _real_os.path.dirname(base) != '':
+                self._gap(f'path outside the modelled directory: {path!r}')
+            other = tuple(self.other() if callable(self.other) else self.other)
+            self.families[base] = other
+            for suffix, n in zip(('', '.old', '.new'), other):
+                self.files[base + suffix] = Inode(n, 0)
         return path
 
     def _op(self, what, path):
@@ -222,8 +237,12 @@ class ModelFS:
             return COMPLETE
         return BAD
 
+    def family_classes(self, base):
+        return (self.cls(base), self.cls(base + '.old'), self.cls(base + '.new'))
+
     def summary(self):
-        return (self.cls(NAME), self.cls(OLD), self.cls(NEW), self.midwrite, self.crashed, self.ops)
+        p = self.primary
+        return (self.cls(p), self.cls(p + '.old'), self.cls(p + '.new'), self.midwrite, self.crashed, self.ops)
 
 
 class ModelFileno:
